@@ -222,7 +222,7 @@ func (e *Env) checkVersion(p *leveldb.VerifVersion) error {
 // transaction, that storage holds nothing but the live tables, one journal,
 // the live manifest and its pointer (C07, "everything unneeded is deleted").
 func (e *Env) checkFiles() error {
-	if len(e.iters) > 0 || e.Tr != nil || len(e.pinned) > 0 {
+	if len(e.iters) > 0 || e.Tr != nil {
 		return nil
 	}
 	return e.CheckFileSet("idle")
